@@ -26,6 +26,7 @@ OPS = ["concat0", "concat1", "like", "padded", "nonzero", "where", "subset", "ma
 FLOOR_TAGS = ["op:" + o for o in OPS] + ["ends:none", "ends:inside", "ends:negative", "ends:beyond", "where:xy", "where:xs", "where:scalar-other-kind", "mask:allfalse", "mask:alltrue",
                                          "operand:norows", "operand:allempty", "side:left", "side:right", "recv:fresh", "recv:lazyrows", "recv:lazycols+2", "starts:none"]
 FLOOR_MONITORS = ["c08:compare", "c08:arguments-unchanged"]
+FP_STRICT = True       # a floating-point event inside the library that the dense computation does not have is a violation (shard.FpMonitor)
 N_RANDOM = {"quick": 30000, "thorough": 400000}
 
 
